@@ -12,7 +12,7 @@
    checked on every implementation output by the harness family `extend`. *)
 From Coq Require Import List ZArith Bool Permutation.
 From TskVerif Require Import Base.Common Gen.Generated C11.Model C11.Current C11.Spec C11.IntervalProofs C11.SitesProofs
-     C11.KeepProofs C11.TrimProofs C11.TrimMutProofs C11.TimeProofs C11.TotalProofs C11.ExtendSpec C11.Main.
+     C11.KeepProofs C11.TrimProofs C11.TrimMutProofs C11.TimeProofs C11.TotalProofs C11.ExtendSpec C11.ExtendCheck C11.Collection C11.AncestryProofs C11.Main.
 Import ListNotations.
 Open Scope Z_scope.
 
@@ -353,3 +353,77 @@ Proof. exact extend_preserves_genotype_lemma. Qed.
 Theorem slide_loop_stops_below_input_parent : forall tm mt cur l p more,
   mt < tm p -> climb tm mt cur (l ++ p :: more) = climb tm mt cur l.
 Proof. exact climb_stops. Qed.
+
+(* extend_haplotypes, translation validation: [check_site] decides, for the input and OUTPUT edge
+   tables of one call, a site position and the site's mutations before / after, the
+   "documented effect" precondition of [extend_preserves_genotype].  Whenever it accepts, every
+   ancestor chain of the input tree (from a node of that tree) is mapped to an ancestor chain
+   of the output tree along which the inherited state is unchanged.  The correspondence
+   evaluates the checker on every output of the implementation (family `extend`). *)
+Theorem extend_check_sound : forall es_in es_out x nodes fuel tm ms_in ms_out,
+  check_site es_in es_out x nodes fuel tm ms_in ms_out = true ->
+  forall u cin anc, In u (origs es_in x nodes) -> chain_rel (pin es_in x) u cin ->
+    chain_rel (pout es_out x) u (expand (runf es_in es_out x nodes fuel) cin) /\
+    geno (expand (runf es_in es_out x nodes fuel) cin) ms_out anc = geno cin ms_in anc.
+Proof. exact extend_check_sound_lemma. Qed.
+
+(* context and provenance as model state (C11/Collection.v): every editing operation returns the
+   context (time_units, top-level metadata / schema, reference sequence, table schemas) untouched,
+   adds exactly one provenance record iff record_provenance is set (nested calls add none; the
+   time-cut operations never do), and its tables are those of the table-level model *)
+Theorem collection_ops_preserve_context :
+  forall (srt : tables -> tables) (cmd_keep cmd_delete cmd_sites cmd_ltrim cmd_rtrim cmd_trim : list Z)
+         (emd gmd cf : bool),
+    (forall ids record c c', delete_sites_coll cmd_sites ids record c = Ok c' ->
+       delete_sites ids (c_tables c) = Ok (c_tables c') /\ c_ctx c' = c_ctx c /\
+       c_prov c' = c_prov c ++ (if record then [cmd_sites] else [])) /\
+    (forall ivs record c c', keep_intervals_coll srt cmd_keep ivs record c = Ok c' ->
+       keep_intervals srt ivs (c_tables c) = Ok (c_tables c') /\ c_ctx c' = c_ctx c /\
+       c_prov c' = c_prov c ++ (if record then [cmd_keep] else [])) /\
+    (forall ivs record c c', delete_intervals_coll srt cmd_keep cmd_delete ivs record c = Ok c' ->
+       delete_intervals srt ivs (c_tables c) = Ok (c_tables c') /\ c_ctx c' = c_ctx c /\
+       c_prov c' = c_prov c ++ (if record then [cmd_delete] else [])) /\
+    (forall record c c', ltrim_coll cmd_ltrim emd gmd cf record c = Ok c' ->
+       ltrim_gen emd gmd cf (c_tables c) = Ok (c_tables c') /\ c_ctx c' = c_ctx c /\
+       c_prov c' = c_prov c ++ (if record then [cmd_ltrim] else [])) /\
+    (forall record c c', rtrim_coll cmd_rtrim cf record c = Ok c' ->
+       rtrim_gen cf (c_tables c) = Ok (c_tables c') /\ c_ctx c' = c_ctx c /\
+       c_prov c' = c_prov c ++ (if record then [cmd_rtrim] else [])) /\
+    (forall record c c', trim_coll cmd_ltrim cmd_rtrim cmd_trim emd gmd cf record c = Ok c' ->
+       trim_gen emd gmd cf (c_tables c) = Ok (c_tables c') /\ c_ctx c' = c_ctx c /\
+       c_prov c' = c_prov c ++ (if record then [cmd_trim] else [])) /\
+    (forall t c c', delete_older_coll t c = Ok c' ->
+       delete_older t (c_tables c) = Ok (c_tables c') /\ c_ctx c' = c_ctx c /\ c_prov c' = c_prov c) /\
+    (forall t flags pop md npop c c', decapitate_coll srt t flags pop md npop c = Ok c' ->
+       decapitate srt t flags pop md npop (c_tables c) = Ok (c_tables c') /\ c_ctx c' = c_ctx c /\
+       c_prov c' = c_prov c).
+Proof. exact collection_ops_lemma. Qed.
+
+(* the whole ancestor relation, not only parents: unchanged inside, every node isolated outside *)
+Theorem keep_intervals_ancestry : forall srt ivs t t',
+  sort_ok srt -> keep_intervals srt ivs t = Ok t' ->
+  (forall x, inside ivs x -> forall c a, ancestor (t_edges t') x c a <-> ancestor (t_edges t) x c a) /\
+  (forall x, ~ inside ivs x -> forall c a, ancestor (t_edges t') x c a -> a = c).
+Proof. exact keep_intervals_ancestry_lemma. Qed.
+
+Theorem delete_intervals_ancestry : forall srt ivs t t',
+  sort_ok srt -> delete_intervals srt ivs t = Ok t' ->
+  (forall x, 0 <= x < t_L t -> ~ inside ivs x ->
+     forall c a, ancestor (t_edges t') x c a <-> ancestor (t_edges t) x c a) /\
+  (forall x, inside ivs x -> forall c a, ancestor (t_edges t') x c a -> a = c).
+Proof. exact delete_intervals_ancestry_lemma. Qed.
+
+(* TreeSequence.keep_intervals(simplify=True) as a composition.  PARTIAL: the contract of simplify
+   (property C04: "two samples share an ancestor at x" is preserved under the node renumbering)
+   is an explicit hypothesis, not discharged here *)
+Theorem keep_intervals_simplify_partial :
+  forall (srt : tables -> tables) (simp : tables -> res tables) (nodemap : Z -> Z) (samples : list Z)
+         ivs t t1 t2,
+  sort_ok srt -> keep_intervals srt ivs t = Ok t1 -> simp t1 = Ok t2 ->
+  (forall x s1 s2, In s1 samples -> In s2 samples ->
+     (share_ancestor (t_edges t2) x (nodemap s1) (nodemap s2) <-> share_ancestor (t_edges t1) x s1 s2)) ->
+  forall s1 s2, In s1 samples -> In s2 samples ->
+    (forall x, inside ivs x ->
+       (share_ancestor (t_edges t2) x (nodemap s1) (nodemap s2) <-> share_ancestor (t_edges t) x s1 s2)) /\
+    (forall x, ~ inside ivs x -> share_ancestor (t_edges t2) x (nodemap s1) (nodemap s2) -> s1 = s2).
+Proof. exact keep_intervals_simplify_partial_lemma. Qed.
